@@ -25,10 +25,11 @@ ASSUMPTIONS = [
     "wrphase with their enables, write data on all phases write_latency cycles after the command",
     "write-to-read / write-to-precharge spacings respect the DRAM timings (in controller cycles: more than write_latency cycles), as every legal DFI master does",
     "single rank; geometries whose address bus carries A10 (addressbits >= 11)",
+    "controller-driven variant: the PHY settings are the model's own (get_sdram_phy_settings for the memory type and clock)",
 ]
 REAL = ["litedram.phy.model.SDRAMPHYModel (BankModel, DFIPhaseModel, init image preparation)"]
 STUB = ["legal-trace generator (DFI master)", "DramRef passive (independent DRAM reference)"]
-SHRINK = {"lists": ["steps"], "zero": ["gap"]}
+SHRINK = {"lists": ["steps", "ops", "init"], "zero": ["gap", "delay"]}
 LEVEL_TEXT = ("Seeded exploration of the bundled DRAM/PHY model against an independent reference on the same DFI bus: read data at read_latency, "
               "rddata_valid timing, final images, init image layout. Sampling, not proof.")
 LEVEL_NOTE = "Trusted: compiled evaluator (memories lowered like migen.sim does), DramRef, the legality rules of the trace generator."
@@ -420,9 +421,17 @@ def gen_ctrl(rng, tier):
             rowbits -= 1
         else:
             bankbits -= 1
-    core, info = coregen.gen_core(rng, lib=False, nranks=1, nports=rng.choice([1, 1, 2, 3]), geom=(bankbits, rowbits, colbits),
-                                  model_phases=True, zqcs=False)
+    FR = {"SDR": (20e6, 133e6), "DDR": (50e6, 200e6), "LPDDR": (50e6, 200e6), "DDR2": (50e6, 266e6), "DDR3": (50e6, 233e6), "DDR4": (80e6, 333e6)}
+    for _ in range(60):
+        core, info = coregen.gen_core(rng, lib=False, nranks=1, nports=rng.choice([1, 1, 2, 3]), geom=(bankbits, rowbits, colbits),
+                                      model_phases=True, zqcs=False)
+        if info["nphases"] == coregen.MODEL_NPHASES[info["memtype"]] and FR[info["memtype"]][0] <= 1e12 / core["clk_period_ps"] <= FR[info["memtype"]][1]:
+            break
     memtype, nph = info["memtype"], info["nphases"]
+    # the PHY settings the model is written for (get_sdram_phy_settings: CL/CWL and the latencies derived from them); with arbitrary
+    # latencies the controller's write-to-read turnaround (derived from CWL) can be shorter than the PHY's write latency, and a model
+    # that stores the data write_latency cycles after the command then legitimately returns the old word
+    core["phy"] = {"from": "model"}
     word_bits = info["data_bytes"] * 8
     pm = {"we_granularity": rng.choice([8, 8, 0]), "mapping": rng.choice(["ROW_BANK_COL", "BANK_ROW_COL"])}
     if rng.random() < 0.7:
